@@ -652,9 +652,10 @@ fn mode_chain(run: &mut Run) {
         }
     }
     idx += mt_cases;
-    // ---- thorough: sampled length-4 histories and random length-12 histories
-    if thorough {
-        for k in 0..60_000u64 {
+    // ---- sampled length-4 histories and random length-12 histories (quick: 12 000 + 100; thorough: 60 000 + 500)
+    let (n4, n12) = if thorough { (60_000u64, 500u64) } else { (12_000u64, 100u64) };
+    {
+        for k in 0..n4 {
             let i = idx + k;
             if !run.want(i) {
                 continue;
@@ -671,7 +672,7 @@ fn mode_chain(run: &mut Run) {
             run.case(i, &class, desc, |c| run_history(c, &uni, &ops, &mut shapes));
         }
         idx += 60_000;
-        for k in 0..500u64 {
+        for k in 0..n12 {
             let i = idx + k;
             if !run.want(i) {
                 continue;
@@ -702,6 +703,11 @@ fn seek_trait(m: &Value) -> &'static str {
     if m["traits"]["neg_nonzero"].as_bool().unwrap_or(false) { "neg-seek-to-nonzero" } else { "no-such-seek" }
 }
 
+/// Panic site for signatures: the in-repo source file (function names change with inlining decisions).
+fn site(func: &str) -> &str {
+    func.split(':').next().unwrap_or(func)
+}
+
 fn parse_and_apply(p: &[u8], base: &[u8]) -> wow_mpq::Result<Vec<u8>> {
     let pf = PatchFile::parse(p)?;
     apply_patch(&pf, base)
@@ -720,7 +726,7 @@ fn run_corrupt(c: &mut Case, ptype: &str, region: &str, p: &[u8], base: &[u8]) {
     match r {
         Err(pn) => {
             c.count(&format!("corrupted_panicked|{region}"), 1);
-            c.violate(format!("patch-panic|{ptype}|{region}|{}", pn.func), format!("apply of a corrupted patch panicked: {} ({})", pn.msg, pn.file), json!({"region": region, "patch": hex(p), "base": brief(base)}));
+            c.violate(format!("patch-panic|{ptype}|{region}|{}", site(&pn.func)), format!("apply of a corrupted patch panicked: {} ({}, in {})", pn.msg, pn.file, pn.func), json!({"region": region, "patch": hex(p), "base": brief(base)}));
         }
         Ok(Err(_)) => c.count(&format!("corrupted_and_detected|{region}"), 1),
         Ok(Ok(bytes)) => {
@@ -750,7 +756,7 @@ fn direct_case(c: &mut Case, m: &Value, idx: u64) {
     alloc::reset();
     let tr = seek_trait(m);
     match trap(|| parse_and_apply(&ptch, &base)) {
-        Err(pn) => c.violate(format!("patch-panic|{ptype}|wellformed|{}", pn.func), format!("apply of a well-formed patch panicked: {}", pn.msg), json!({"patch": hex(&ptch), "base": hex(&base)})),
+        Err(pn) => c.violate(format!("patch-panic|{ptype}|wellformed|{}", site(&pn.func)), format!("apply of a well-formed patch panicked: {}", pn.msg), json!({"patch": hex(&ptch), "base": hex(&base)})),
         Ok(Err(e)) => {
             c.count(&format!("wellformed_rejected|{ptype}|{tr}"), 1);
             c.violate(format!("patch-wellformed-rejected|{ptype}|{tr}"), format!("a well-formed {ptype} patch ({} -> {} bytes, reference apply succeeds) is rejected: {e}", base.len(), expect.len()),
@@ -911,7 +917,7 @@ fn chain_case(c: &mut Case, m: &Value) {
         let r = match r {
             Ok(r) => r,
             Err(p) => {
-                c.violate(format!("patch-panic|chain|{}|{}", jstr(m, "sigtag"), p.func), format!("read_file through the chain panicked: {}", p.msg), detail.clone());
+                c.violate(format!("patch-panic|chain|{}|{}", jstr(m, "sigtag"), site(&p.func)), format!("read_file through the chain panicked: {}", p.msg), detail.clone());
                 continue;
             }
         };
